@@ -64,7 +64,8 @@ func (w *c01Writer) Write(b []byte) (int, error) {
 }
 
 type c01HCase struct {
-	K     int        `json:"k"`    // routes: index i = method i%2 (GET, POST), path i/2
+	K     int        `json:"k"`    // routes: index i has method M[i] and path /c01/{a,b}[i/2]
+	M     []string   `json:"m"`    // per route: HTTP method
 	Kind  []int      `json:"kind"` // per route: 0 benign, 1 failing, 2 mixed
 	Steps []c01HStep `json:"steps"`
 	Skew  int64      `json:"skew,omitempty"`
@@ -107,11 +108,13 @@ func c01GenHTTP(rt *rapid.T) c01HCase {
 		return out
 	}
 	mk := func(code int) c01HStep { return c01HStep{C: code, I: interim()} }
-	failing := rapid.OneOf(rapid.SampledFrom([]int{500, 500, 500, 501, 502, 503, 504, 599}), rapid.IntRange(500, 599))
+	// 600..999 are legal for net/http and are not "below 500" either
+	failing := rapid.OneOf(rapid.SampledFrom([]int{500, 500, 500, 501, 502, 503, 504, 599, 600, 999}), rapid.IntRange(500, 599), rapid.IntRange(600, 999))
 	var scripts [][]c01HStep
 	for n := 0; n < c.K; n++ {
 		kind := rapid.SampledFrom([]int{0, 0, 1, 1, 2}).Draw(rt, "kind")
 		c.Kind = append(c.Kind, kind)
+		c.M = append(c.M, rapid.SampledFrom([]string{http.MethodGet, http.MethodPost, http.MethodPut, http.MethodDelete, http.MethodPatch, http.MethodHead, http.MethodOptions}).Draw(rt, "method"))
 		var s []c01HStep
 		switch kind {
 		case 0:
@@ -169,7 +172,11 @@ func c01InterpHTTP(t *testing.T, c c01HCase) (v kit.Verdict) {
 		paths := make([]string, c.K)
 		for n := 0; n < c.K; n++ {
 			n := n
-			methods[n] = []string{http.MethodGet, http.MethodPost}[n%2]
+			methods[n] = http.MethodGet
+			if n < len(c.M) && c.M[n] != "" {
+				methods[n] = c.M[n]
+			}
+			classes["method-"+methods[n]] = true
 			paths[n] = []string{"/c01/a", "/c01/b"}[n/2]
 			handlers[n] = BreakerHandler(methods[n], paths[n], metrics)(http.HandlerFunc(func(w http.ResponseWriter, r *http.Request) {
 				ran[n]++
@@ -242,6 +249,8 @@ func c01InterpHTTP(t *testing.T, c c01HCase) (v kit.Verdict) {
 			classes["benign-route-with<=5-failures"] = true
 		case kd == 1 && st.C == 500:
 			classes["failing-route-status-500"] = true
+		case kd == 1 && st.C >= 600:
+			classes["failing-route-status>=600"] = true
 		}
 		if len(st.I) > 0 {
 			classes[[]string{"benign-route-interim", "failing-route-interim-then-5xx", "mixed-route-interim"}[kd]] = true
